@@ -285,6 +285,18 @@ func c16Doc(r *mrand.Rand, sp *saml2.SAMLServiceProvider, kind string) (*etree.D
 		texts := []string{"", "plain", "<&>\"'", "é✓\U0001F600", "~~~>>>???", "\xfb\xef\xbe", strings.Repeat("?>", 20), "a\r\nb", "x"}
 		el.CreateElement("saml:Issuer").SetText(texts[r.Intn(len(texts))])
 		el.CreateAttr("Destination", texts[r.Intn(len(texts))])
+		if r.Intn(20) == 0 {
+			// a document larger than any buffer a writer sits on (4 KiB bufio default, 8 KiB): the field still
+			// base64-decodes to exactly the document
+			n := []int{4090, 4200, 4300, 9000}[r.Intn(4)]
+			ext := el.CreateElement("samlp:Extensions")
+			for ext.Parent() != nil && n > 0 {
+				t := texts[1+r.Intn(len(texts)-1)]
+				ext.CreateElement("x:pad").SetText(t + strings.Repeat("p", 37))
+				n -= 60 + len(t)
+			}
+			return d, "synthetic-large"
+		}
 		return d, "synthetic"
 	}
 }
